@@ -577,6 +577,13 @@ func (fc *FCtx) specCall(n *SNode, env *Env) Val {
 	case "enc":
 		evalArgs()
 		return Val{T: app(fc.encFn(args[0].S), args[0].T), S: fc.U.BzSort()}
+	case "bzmk":
+		evalArgs()
+		var es []string
+		for _, a := range args {
+			es = append(es, a.T)
+		}
+		return Val{T: fc.bzMk(es), S: fc.U.BzSort()}
 	case "sdkctx":
 		evalArgs()
 		cs := fc.ctxTheory()
@@ -618,14 +625,20 @@ func (fc *FCtx) specCall(n *SNode, env *Env) Val {
 			sorts = append(sorts, v.S)
 			ts = append(ts, v.T)
 		}
-		fo := fc.lookupFuncByName(env.pkg, n.Args[1].Name)
+		fnm := n.Args[1].Name
+		ridx := 0
+		if k := strings.Index(fnm, "#"); k >= 0 {
+			fmt.Sscan(fnm[k+1:], &ridx)
+			fnm = fnm[:k]
+		}
+		fo := fc.lookupFuncByName(env.pkg, fnm)
 		if fo == nil {
-			oos("spec: absfn: unknown function %q", n.Args[1].Name)
+			oos("spec: absfn: unknown function %q", fnm)
 		}
 		sg := fo.Type().(*types.Signature)
-		rt := sg.Results().At(0).Type()
+		rt := sg.Results().At(ridx).Type()
 		rs := fc.U.SortOf(rt)
-		fname := extFnName(fo.FullName(), sorts, 0)
+		fname := extFnName(fo.FullName(), sorts, ridx)
 		fc.U.Fun(fname, sorts, rs)
 		return Val{T: app(fname, ts...), S: rs, GoT: rt}
 	case "ext":
